@@ -660,3 +660,86 @@ package bpmn
 //@     invariant count(Trace, VisitTrace) == athead(1, count(Trace, VisitTrace)) + (flowed ? 1 : 0)
 //@     invariant forall b int :: off(flowHandlers) <= b && b < off(flowHandlers) + len(flowHandlers) ==>
 //@               fncode(at(flowHandlers, b)) == code("(*flow).handleAdditionalSequenceFlow$1")
+
+// ---------------------------------------------------------------------------
+// gateway_exclusive.go (C04): the probe protocol, step by step
+
+//@ func (*exclusiveGateway).run
+//@   prop C04 C07
+//@   requires gw.wiring != nil && gw.probing != nil
+//@   loop 1 for
+//@     invariant gw.wiring != nil && gw.probing != nil && gw.wiring == old(gw.wiring) && gw.mch == old(gw.mch) && gw.probing == old(gw.probing) &&
+//@               gw.element == old(gw.element) && gw.defaultSequenceFlow == old(gw.defaultSequenceFlow) && gw.nonDefaultSequenceFlows == old(gw.nonDefaultSequenceFlows)
+//@     iter ensures [report-routes-to-the-first-true-flow]
+//@       let r := evval(ev(old(evlen))).(gatewayProbingReport) in
+//@       isRecv(ev(old(evlen))) && evch(ev(old(evlen))) == gw.mch && is(evval(ev(old(evlen))), gatewayProbingReport) &&
+//@       old(has(gw.probing, r.flowId)) && old(gw.probing[r.flowId]) != nil && len(r.result) > 0 ==>
+//@         !has(gw.probing, r.flowId) &&
+//@         evlen == old(evlen) + 2 && isSend(ev(old(evlen) + 1)) &&
+//@         evch(ev(old(evlen) + 1)) == old(*gw.probing[r.flowId]) &&
+//@         is(evval(ev(old(evlen) + 1)), flowAction) &&
+//@         len(evval(ev(old(evlen) + 1)).(flowAction).sequenceFlows) == 1 &&
+//@         evval(ev(old(evlen) + 1)).(flowAction).sequenceFlows[0] == gw.nonDefaultSequenceFlows[r.result[0]] &&
+//@         len(evval(ev(old(evlen) + 1)).(flowAction).unconditionalFlows) == 1 &&
+//@         evval(ev(old(evlen) + 1)).(flowAction).unconditionalFlows[0] == 0
+//@     iter ensures [no-true-flow-takes-the-default]
+//@       let r := evval(ev(old(evlen))).(gatewayProbingReport) in
+//@       isRecv(ev(old(evlen))) && evch(ev(old(evlen))) == gw.mch && is(evval(ev(old(evlen))), gatewayProbingReport) &&
+//@       old(has(gw.probing, r.flowId)) && old(gw.probing[r.flowId]) != nil && len(r.result) == 0 && gw.defaultSequenceFlow != nil ==>
+//@         !has(gw.probing, r.flowId) &&
+//@         evlen == old(evlen) + 2 && isSend(ev(old(evlen) + 1)) &&
+//@         evch(ev(old(evlen) + 1)) == old(*gw.probing[r.flowId]) &&
+//@         is(evval(ev(old(evlen) + 1)), flowAction) &&
+//@         len(evval(ev(old(evlen) + 1)).(flowAction).sequenceFlows) == 1 &&
+//@         evval(ev(old(evlen) + 1)).(flowAction).sequenceFlows[0] == gw.defaultSequenceFlow &&
+//@         len(evval(ev(old(evlen) + 1)).(flowAction).unconditionalFlows) == 1 &&
+//@         evval(ev(old(evlen) + 1)).(flowAction).unconditionalFlows[0] == 0
+//@     iter ensures [no-true-flow-and-no-default-is-an-error-trace-naming-the-gateway]
+//@       let r := evval(ev(old(evlen))).(gatewayProbingReport) in
+//@       isRecv(ev(old(evlen))) && evch(ev(old(evlen))) == gw.mch && is(evval(ev(old(evlen))), gatewayProbingReport) &&
+//@       old(has(gw.probing, r.flowId)) && old(gw.probing[r.flowId]) != nil && len(r.result) == 0 && gw.defaultSequenceFlow == nil ==>
+//@         !has(gw.probing, r.flowId) &&
+//@         evlen == old(evlen) + 2 && isTrace(ev(old(evlen) + 1)) && evch(ev(old(evlen) + 1)) == ref(gw.wiring.tracer) &&
+//@         is(evval(ev(old(evlen) + 1)), ErrorTrace) &&
+//@         is(evval(ev(old(evlen) + 1)).(ErrorTrace).Error, ExclusiveNoEffectiveSequenceFlows) &&
+//@         evval(ev(old(evlen) + 1)).(ErrorTrace).Error.(ExclusiveNoEffectiveSequenceFlows).ExclusiveGateway == gw.element
+//@     iter ensures [a-report-touches-only-its-own-token]
+//@       let r := evval(ev(old(evlen))).(gatewayProbingReport) in
+//@       isRecv(ev(old(evlen))) && evch(ev(old(evlen))) == gw.mch && is(evval(ev(old(evlen))), gatewayProbingReport) ==>
+//@         forall k id.Id :: k != r.flowId ==>
+//@           has(gw.probing, k) == old(has(gw.probing, k)) && gw.probing[k] == old(gw.probing[k])
+//@     iter ensures [a-second-request-parks-the-reply-and-sends-nothing]
+//@       let q := evval(ev(old(evlen))).(nextActionMessage) in
+//@       isRecv(ev(old(evlen))) && evch(ev(old(evlen))) == gw.mch && is(evval(ev(old(evlen))), nextActionMessage) &&
+//@       old(has(gw.probing, q.flow.Id())) ==>
+//@         evlen == old(evlen) + 1 && has(gw.probing, q.flow.Id()) && gw.probing[q.flow.Id()] != nil && *gw.probing[q.flow.Id()] == q.response
+//@     iter ensures [a-first-request-gets-the-probe-of-the-non-default-flows]
+//@       let q := evval(ev(old(evlen))).(nextActionMessage) in
+//@       isRecv(ev(old(evlen))) && evch(ev(old(evlen))) == gw.mch && is(evval(ev(old(evlen))), nextActionMessage) &&
+//@       !old(has(gw.probing, q.flow.Id())) ==>
+//@         evlen == old(evlen) + 2 && isSend(ev(old(evlen) + 1)) && evch(ev(old(evlen) + 1)) == q.response &&
+//@         is(evval(ev(old(evlen) + 1)), probeAction) &&
+//@         evval(ev(old(evlen) + 1)).(probeAction).sequenceFlows == gw.nonDefaultSequenceFlows &&
+//@         has(gw.probing, q.flow.Id()) && gw.probing[q.flow.Id()] == nil
+//@   loop 2 range m.result
+//@     invariant len(sfs) == 0 && fresh(base(sfs)) && gw.wiring != nil && gw.wiring == old(gw.wiring) && gw.mch == old(gw.mch) && gw.probing == old(gw.probing) &&
+//@               gw.element == old(gw.element) && gw.defaultSequenceFlow == old(gw.defaultSequenceFlow) && gw.nonDefaultSequenceFlows == old(gw.nonDefaultSequenceFlows)
+//@     invariant evlen == athead(1, evlen) + 1 && !has(gw.probing, m.flowId)
+//@     invariant forall k id.Id :: k != m.flowId ==> has(gw.probing, k) == athead(1, has(gw.probing, k)) && gw.probing[k] == athead(1, gw.probing[k])
+//@     invariant rk2 == 0 && preservedSince(1, "elems([]*SequenceFlow)") && preservedSince(1, "cells(chan IAction)")
+
+//@ func Flow.Id
+//@   assumed
+//@   pure
+//@   modifies nothing
+//@   flag emits none
+
+//@ func (*exclusiveGateway).NextAction
+//@   prop C04
+//@   requires gw.wiring != nil
+//@   ensures [fresh-buffered-reply-channel] fresh(result) && result != nil && chancap(result) == 1
+//@   ensures [one-request-sent-last] isSend(ev(evlen - 1)) && evch(ev(evlen - 1)) == gw.mch &&
+//@             is(evval(ev(evlen - 1)), nextActionMessage) &&
+//@             evval(ev(evlen - 1)).(nextActionMessage).response == result &&
+//@             evval(ev(evlen - 1)).(nextActionMessage).flow == flow
+//@   ensures [at-most-one-run-spawned] count(Spawn, code("(*exclusiveGateway).run")) <= old(count(Spawn, code("(*exclusiveGateway).run"))) + 1
